@@ -264,9 +264,43 @@ Theorem C09_history_refines : forall mapc ra kind p nr, kind = 0 \/ kind = 1 \/ 
 Proof. exact history_refines. Qed.
 Print Assumptions C09_history_refines.
 
+(* ---- the whole property for a plain Base_matrix, prime characteristic: after ANY history starting from the empty matrix,
+   contents, zero-entry tests and zero-column tests of the algorithm model (sparse, heap or lazy-vector columns; lazy swaps;
+   map or vector container; with or without row access) are those of the dense matrix of the same history; inserted values
+   are not multiples of p (op_ok2) *)
+Theorem C09_step_keeps_zero_free : forall mapc ra kind p nr m o, prime p -> m_inv p nr kind m -> m_zf m -> op_ok nr o -> op_ok2 p o ->
+  m_zf (a_step mapc ra kind p m o).
+Proof. exact step_keeps_zero_free. Qed.
+Print Assumptions C09_step_keeps_zero_free.
+
+Theorem C09_tests_read_dense : forall p nr kind m c r, prime p -> m_inv p nr kind m -> m_zf m -> 0 <= r < Z.of_nat nr ->
+  a_is_zero_entry p m c r = d_is_zero_entry (a_abs p nr m) c r /\ a_is_zero_col p m c = d_is_zero_col (a_abs p nr m) c.
+Proof. exact tests_read_dense. Qed.
+Print Assumptions C09_tests_read_dense.
+
+Theorem C09_history_observations_read_dense : forall mapc ra kind p nr ops, kind = 0 \/ kind = 1 \/ kind = 2 -> prime p ->
+  Forall (op_ok nr) ops -> Forall (op_ok2 p) ops ->
+  forall c r, 0 <= r < Z.of_nat nr ->
+  let m := fold_left (a_step mapc ra kind p) ops (a_empty nr) in
+  let d := fold_left (d_step mapc p nr) ops (a_abs p nr (a_empty nr)) in
+  d_col (a_abs p nr m) c = d_col d c /\ a_is_zero_entry p m c r = d_is_zero_entry d c r /\ a_is_zero_col p m c = d_is_zero_col d c.
+Proof. exact history_tests_read_dense. Qed.
+Print Assumptions C09_history_observations_read_dense.
+
+(* rows, ordered sparse representations: once the pending permutation is applied (get_row does it), every row lists exactly the
+   non-zero entries of that row of the dense matrix of the history *)
+Theorem C09_history_rows_read_dense : forall mapc ra p nr ops, prime p ->
+  Forall (op_ok nr) ops -> Forall (op_ok2 p) ops ->
+  forall r, 0 <= r < Z.of_nat nr ->
+  let m := a_order (all_fixed ra) mapc p (fold_left (a_step mapc ra 0 p) ops (a_empty nr)) in
+  let d := fold_left (d_step mapc p nr) ops (a_abs p nr (a_empty nr)) in
+  a_row m r = d_row d r.
+Proof. exact history_rows_read_dense. Qed.
+Print Assumptions C09_history_rows_read_dense.
+
 (* ---- not proved; compared on every generated history by the correspondence check ---- *)
-(* missing: insert_column(column, index) with holes in the vector container; the emptiness / zero-entry tests at matrix level
-   (they need the zero-freeness invariant, proved per column above for prime p, carried through histories) *)
+(* missing: insert_column(column, index) with holes in the vector container; rows of the lazy vector column with row access
+   (needs "no erased row" as invariant of the row-access mode) *)
 Definition C09_matrix_insert_at_full : Prop :=
   forall p nr kind m es idx, prime p -> m_inv p nr kind m -> a_col m idx = None -> sorted es -> rows_in nr es -> 0 <= idx ->
     a_abs p nr (a_insert_at (all_fixed false) false kind p m idx es) = d_insert_at false p nr (a_abs p nr m) idx es.
